@@ -34,7 +34,9 @@ DUPS = dict(
     track=["0 = N 0 0", "2 = N 1 1", "3 = S 2 10", "3 = S 2 10", "4 = E solo", "4 = E solo"],
 )
 # un-indented look-alikes of the structural lines: a lone brace with trailing blanks, a header-like line
-BRACES = [RAW + "{ ", RAW + "} ", RAW + "}\t", RAW + " }", RAW + "{{", RAW + "[Song]", RAW + "   ", RAW + "", "{", "}", "50% garbage", "0 = N 1 0 % x", "%s %d %(x)s", "100%%", "{0} {x} {} {{", "0 = TS 4 0 = B 120000", "5 = B 1 6 = A 7", "1 = N 0 0 2 = N 1 0", '3 = E solo 4 = E "x"', 'x 0 = E "section a"', "junk 0 = N 0 0", "junk 0 = B 1"]
+# unparsable lines indented MORE deeply (and less, and with TABs) than the lines around them
+INDENTED = ["    garbage", "\t\tgarbage", "      2 = N 8 0", "    ", RAW + "garbage", RAW + " x", "  \t  5 = Q 1"]
+BRACES = INDENTED + [RAW + "{ ", RAW + "} ", RAW + "}\t", RAW + " }", RAW + "{{", RAW + "[Song]", RAW + "   ", RAW + "", "{", "}", "50% garbage", "0 = N 1 0 % x", "%s %d %(x)s", "100%%", "{0} {x} {} {{", "0 = TS 4 0 = B 120000", "5 = B 1 6 = A 7", "1 = N 0 0 2 = N 1 0", '3 = E solo 4 = E "x"', 'x 0 = E "section a"', "junk 0 = N 0 0", "junk 0 = B 1"]
 # numbers a lenient conversion (int(), float()) would accept although the line language does not: zero-padded lane /
 # kind indices, signs, digit-group underscores, exponents, hexadecimal
 LENIENT = dict(
@@ -244,7 +246,7 @@ def _long(ctx):
     o0, w0 = run(base_text)
     for sec in ("sync", "events", "track"):
         lines = base[sec]
-        for g in GARBAGE[sec][:4] + BRACES[:3]:
+        for g in GARBAGE[sec][:4] + BRACES[len(INDENTED) : len(INDENTED) + 3] + INDENTED[:1]:
             for pos in (0, 1, len(lines) // 2, len(lines) - 1, len(lines)):
                 new = lines[:pos] + [g, g] + lines[pos:]
                 kw = dict(base)
@@ -269,7 +271,7 @@ def run_shard(shard, ctx):
         base = BASE[sec]
         base_text = text_with(sec, base)
         o0, w0 = run(base_text)
-        for g in GARBAGE[sec][1:4] + BRACES[:2] + LENIENT[sec][:1]:
+        for g in GARBAGE[sec][1:4] + BRACES[len(INDENTED) : len(INDENTED) + 2] + INDENTED[:1] + LENIENT[sec][:1]:
             for n in (47, 48, 49, 50, 64, 65, 100, 128, 129, 257, 300):
                 for pos in (0, 2, len(base)):
                     ctx.node()
@@ -286,7 +288,7 @@ def run_shard(shard, ctx):
         ctx.evaluations += 1
         res = refmodel.model(base_text)
         e1.check_model(ctx, "conservation", base_text, res, msg="%s section with every line written twice: each copy contributes its own datum" % sec, drop=("hopo", "sp"))
-        for g in GARBAGE[sec][:4] + BRACES[:1]:
+        for g in GARBAGE[sec][:4] + BRACES[len(INDENTED) : len(INDENTED) + 1] + INDENTED[:2]:
             ctx.node()
             for counts in itertools.product(range(2), repeat=len(base) + 1):
                 lines, k = [], 0
